@@ -38,6 +38,13 @@ func (x *Exec) val(fr *Frame, st *State, v ssa.Value) Val {
 	if r, ok := fr.vals[v]; ok {
 		return r
 	}
+	if fr.region != nil {
+		// value defined before the loop whose body is executed in isolation: arbitrary
+		fv, f := x.freshVal("rgv_"+v.Name(), v.Type())
+		x.assume(st, f)
+		fr.vals[v] = fv
+		return fv
+	}
 	// value defined in a block not yet executed (should not happen in a reducible CFG)
 	x.unsup("use of undefined SSA value %s in %s", v.Name(), fr.fn.Name())
 	fv, _ := x.freshVal("undef", v.Type())
